@@ -23,6 +23,19 @@ import (
 
 func TestMain(m *testing.M) { hx.Main(m, "C04", nil) }
 
+// undefinedGroup reports whether ag is an empty attribute group whose ID no listed group carries.
+func (c *checker) undefinedGroup(ag *ir.AttrGroupDef) bool {
+	if len(ag.FuncAttrs) != 0 {
+		return false
+	}
+	for _, d := range c.m.AttrGroupDefs {
+		if d.ID == ag.ID {
+			return false
+		}
+	}
+	return true
+}
+
 type checker struct {
 	m      *ir.Module
 	top    map[uintptr]string // defining top-level objects (globals, funcs, aliases, ifuncs, comdats, attr groups, numbered metadata)
@@ -200,6 +213,13 @@ func (c *checker) use(v reflect.Value, f *ir.Func, where string) {
 		switch x := x.(type) {
 		case *ir.Global, *ir.Func, *ir.Alias, *ir.IFunc, *ir.ComdatDef, *ir.AttrGroupDef:
 			c.nrefs++
+			if ag, isAG := x.(*ir.AttrGroupDef); isAG && c.undefinedGroup(ag) {
+				// a reference to an attribute-group ID that the module does not define at all: the
+				// library materialises an empty group (the documented exception, see C05); there is
+				// no listed definition it could be identical with
+				hx.Hist("undefined_attribute_group_reference(documented_exception)")
+				return
+			}
 			if _, ok := c.top[p]; !ok {
 				c.errorf("%s: refers to a %T (%v) that is not the object listed by the module under that name", where, x, identOf(x))
 			}
